@@ -46,6 +46,16 @@ struct BqScenario
   std::atomic<uint64_t> blockedFull{0}, blockedEmpty{0}, timedOut{0}, refusedAfterClose{0};
   std::atomic<uint64_t> maxSizeSeen{0};
   std::atomic<bool> lateAccept{false};
+  // stamps for "a take came back empty-handed although an item was in the queue during the whole call":
+  // put return time per accepted item, take call time per taken item, (call, return, kind) per failed take
+  std::vector<std::vector<uint64_t>> acceptedRetNs, takenCallNs;
+  struct FailedTake { uint64_t callNs, retNs; int kind; }; // kind 2 dequeue 4 dequeue(timeout) 5 tryDequeue
+  std::vector<std::vector<FailedTake>> failedTakes;
+  // and for "a put was refused although the queue was open and never full during the whole call":
+  // put call time per accepted item, take return time per taken item, (call, return, kind) per refused put
+  std::vector<std::vector<uint64_t>> acceptedCallNs, takenRetNs;
+  std::vector<std::vector<FailedTake>> failedPuts; // kind 1 queue 3 tryQueue(timeout) 6 tryQueue
+  std::atomic<uint64_t> closeCallNs{0};
 };
 
 static bool runBq(uint64_t seed, uint64_t idx)
@@ -73,6 +83,8 @@ static bool runBq(uint64_t seed, uint64_t idx)
 #endif
   S->accepted.resize(S->P);
   S->taken.resize(S->C);
+  S->acceptedRetNs.resize(S->P); S->takenCallNs.resize(S->C); S->failedTakes.resize(S->C);
+  S->acceptedCallNs.resize(S->P); S->takenRetNs.resize(S->C); S->failedPuts.resize(S->P);
   for (int i = 0; i < S->P + S->C; i++) S->regs.emplace_back(new CallReg());
   S->running = S->P + S->C;
   std::atomic<int> producersRunning{S->P};
@@ -93,6 +105,7 @@ static bool runBq(uint64_t seed, uint64_t idx)
         bool closedBefore = S->closeReturned.load();
         int kind = int(r.below(10));
         bool ok;
+        uint64_t putCallNs = vf::nowNs();
         if (S->q->full()) S->blockedFull++;
         if (kind < 5) { reg.sinceNs = vf::nowNs(); reg.op = 1; ok = r.chance(0.5) ? S->q->queue(it) : S->q->queue(Item(it)); reg.op = 0; }
         else if (kind < 8)
@@ -106,10 +119,13 @@ static bool runBq(uint64_t seed, uint64_t idx)
         if (ok)
         {
           S->accepted[p].push_back(it);
+          S->acceptedRetNs[p].push_back(vf::nowNs());
+          S->acceptedCallNs[p].push_back(putCallNs);
           S->puts++;
           if (closedBefore) S->lateAccept = true; // put accepted although close() had returned before the call
         }
         else if (closedBefore) S->refusedAfterClose++;
+        if (!ok) S->failedPuts[p].push_back({putCallNs, vf::nowNs(), kind < 5 ? 1 : kind < 8 ? 3 : 6});
         uint64_t sz = S->q->size();
         uint64_t m = S->maxSizeSeen.load();
         while (sz > m && !S->maxSizeSeen.compare_exchange_weak(m, sz)) {}
@@ -132,11 +148,12 @@ static bool runBq(uint64_t seed, uint64_t idx)
         bool ok;
         bool closedBefore = S->closeReturned.load();
         if (closedBefore && lazyConsumers) break;
+        uint64_t takeCallNs = vf::nowNs();
         if (kind < 5)
         {
           if (S->q->empty()) S->blockedEmpty++;
           reg.sinceNs = vf::nowNs(); reg.op = 2; ok = S->q->dequeue(it); reg.op = 0;
-          if (!ok) break; // closed and empty
+          if (!ok) { S->failedTakes[c].push_back({takeCallNs, vf::nowNs(), 2}); break; } // closed and empty
         }
         else if (kind < 8)
         {
@@ -144,8 +161,9 @@ static bool runBq(uint64_t seed, uint64_t idx)
           if (!ok) S->timedOut++;
         }
         else ok = S->q->tryDequeue(it);
-        if (ok) { S->taken[c].push_back(it); S->takes++; emptyAfterClose = 0; }
-        else if (closedBefore && ++emptyAfterClose > 2) break;
+        if (ok) { S->taken[c].push_back(it); S->takenCallNs[c].push_back(takeCallNs); S->takenRetNs[c].push_back(vf::nowNs()); S->takes++; emptyAfterClose = 0; }
+        else S->failedTakes[c].push_back({takeCallNs, vf::nowNs(), kind < 8 ? 4 : 5});
+        if (!ok && closedBefore && ++emptyAfterClose > 2) break;
         if (r.chance(0.03)) vf::sleepMs(0.05 * double(r.below(20)));
       }
       S->running--;
@@ -167,6 +185,7 @@ static bool runBq(uint64_t seed, uint64_t idx)
     std::this_thread::yield();
   }
   if (rng.chance(0.5)) vf::sleepMs(0.01 * double(rng.below(300)));
+  S->closeCallNs = vf::nowNs();
   S->q->close();
   S->closeReturnNs = vf::nowNs();
   S->closeReturned = true;
@@ -232,6 +251,76 @@ static bool runBq(uint64_t seed, uint64_t idx)
   for (auto &kv : seen) { if (kv.second == 0) lost++; else if (kv.second > 1) dup++; }
   if (lost) O.viol("C10:bq:lost-item", "accepted item neither taken nor left in the closed queue", detail("\"lost\":" + std::to_string(lost) + ",\"accepted\":" + std::to_string(nAccepted)));
   if (dup) O.viol("C10:bq:duplicate-item", "item taken more than once", detail("\"dup\":" + std::to_string(dup)));
+  // a take that came back empty-handed (false / timed out) although some item was in the queue during the WHOLE
+  // call: accepted (put returned) before the take was called, and taken by a call that began after this one had
+  // returned — or never taken. Stamps are conservative on both sides. Covers "closing leaves already queued
+  // items retrievable" for every take flavour, and a timed take sleeping through an item.
+  {
+    struct Span { uint64_t inNs, outNs; };
+    std::map<uint64_t, Span> spans;
+    for (int p = 0; p < S->P; p++)
+      for (size_t i = 0; i < S->accepted[p].size(); i++)
+        spans[(uint64_t(S->accepted[p][i].producer) << 32) | S->accepted[p][i].seq] = Span{S->acceptedRetNs[p][i], ~0ull};
+    for (int c = 0; c < S->C; c++)
+      for (size_t i = 0; i < S->taken[c].size(); i++)
+      {
+        auto f = spans.find((uint64_t(S->taken[c][i].producer) << 32) | S->taken[c][i].seq);
+        if (f != spans.end()) f->second.outNs = std::min(f->second.outNs, S->takenCallNs[c][i]);
+      }
+    std::vector<Span> sp;
+    for (auto &kv : spans) sp.push_back(kv.second);
+    uint64_t nFailed = 0, nBad = 0;
+    BqScenario::FailedTake w{0, 0, 0};
+    for (int c = 0; c < S->C; c++)
+      for (auto &ft : S->failedTakes[c])
+      {
+        nFailed++;
+        for (auto &x : sp)
+          if (x.inNs < ft.callNs && x.outNs > ft.retNs) { if (!nBad) w = ft; nBad++; break; }
+      }
+    O.obs("bq_failed_takes_judged", nFailed);
+    if (nBad)
+    {
+      bool afterClose = w.callNs > S->closeReturnNs.load() && S->closeReturnNs.load();
+      O.viol(std::string("C10:bq:take-failed-while-item-present:") + (w.kind == 2 ? "dequeue" : w.kind == 4 ? "dequeue(timeout)" : "tryDequeue") + (afterClose ? ":after-close" : ""),
+             "a take returned false although an accepted item sat in the queue during the whole call (it was put before the call began and taken only after it had returned, or never)",
+             detail("\"count\":" + std::to_string(nBad) + ",\"failed_takes\":" + std::to_string(nFailed) + ",\"call_us_after_close\":" + std::to_string((int64_t(w.callNs) - int64_t(S->closeReturnNs.load())) / 1000)));
+    }
+  }
+  // a put refused (false / timed out) although the queue was open and NEVER full during the whole call: every item
+  // that can have been inside at any instant of the call (its put was called before the refused call returned and
+  // its take had not returned before the refused call began) is counted; fewer than `capacity` such items means
+  // there was room all the time. Only calls that returned before close() was even called are judged.
+  {
+    struct Span { uint64_t inNs, outNs; };
+    std::map<uint64_t, Span> spans;
+    for (int p = 0; p < S->P; p++)
+      for (size_t i = 0; i < S->accepted[p].size(); i++)
+        spans[(uint64_t(S->accepted[p][i].producer) << 32) | S->accepted[p][i].seq] = Span{S->acceptedCallNs[p][i], ~0ull};
+    for (int c = 0; c < S->C; c++)
+      for (size_t i = 0; i < S->taken[c].size(); i++)
+      {
+        auto f = spans.find((uint64_t(S->taken[c][i].producer) << 32) | S->taken[c][i].seq);
+        if (f != spans.end()) f->second.outNs = std::min(f->second.outNs, S->takenRetNs[c][i]);
+      }
+    uint64_t nJudged = 0, nBad = 0;
+    BqScenario::FailedTake w{0, 0, 0};
+    size_t wInside = 0;
+    for (int p = 0; p < S->P; p++)
+      for (auto &fp : S->failedPuts[p])
+      {
+        if (fp.retNs >= S->closeCallNs.load()) continue;
+        nJudged++;
+        size_t maybeInside = 0;
+        for (auto &kv : spans) if (kv.second.inNs < fp.retNs && kv.second.outNs > fp.callNs) maybeInside++;
+        if (maybeInside < S->cap) { if (!nBad) { w = fp; wInside = maybeInside; } nBad++; }
+      }
+    O.obs("bq_refused_puts_judged", nJudged);
+    if (nBad)
+      O.viol(std::string("C10:bq:put-refused-while-space-free:") + (w.kind == 1 ? "queue" : w.kind == 3 ? "tryQueue(timeout)" : "tryQueue"),
+             "a put was refused on an open queue that cannot have been full at any instant of the call",
+             detail("\"count\":" + std::to_string(nBad) + ",\"refused_puts_judged\":" + std::to_string(nJudged) + ",\"items_possibly_inside\":" + std::to_string(wInside)));
+  }
   // per-producer order at each consumer
   for (int c = 0; c < S->C; c++)
   {
